@@ -24,6 +24,9 @@
     `it = iter(x)` / `it = None`                               `let it := some x` / `let it := none`
     `try: x = next(it) except StopIteration: return`           `nextOr it ([], none) fun x it => …`
     `if it is None: A else: B`                                 `match it with | none => A | some it => B`
+    `if x is None or C: A else: B` (x an optional number)      `match x with | none => A | some x => if C then A else B`
+    `yield E` at function level                                `[E]`                       (a list segment)
+    `for v in g(..): yield f(v)` (g a generator function)      `mapOut f (g .. n)`
 
   The state of a loop is the tuple of the variables its body assigns, in order of first assignment.
   Mathlib-free; executable.
@@ -78,6 +81,9 @@ def rangeG {α : Type} (k : Int) (n : Nat) (f : Nat → α) : List α := (List.r
 
 /-- the function ends after these samples; `n` reads -/
 def takeRun {α : Type} (n : Nat) (xs : List α) : Run α := (xs.take n, none)
+
+/-- `for v in g(..): yield f v`: the outputs of the generator through `f`; its exception, if any, after them -/
+def mapOut {α β : Type} (f : α → β) (r : Run α) : Run β := (r.1.map f, r.2)
 
 /-- `try: x = next(it) except StopIteration: return` -/
 def nextOr {α β : Type} (it : Option (List α)) (stop : β) (k : α → Option (List α) → β) : β :=
@@ -143,6 +149,11 @@ def mcNow (start modulo step : Arg α) (n : Nat) : Run α :=
           | .ok c => (List.replicate n c, none)
         else if stepsNow o m s > 1 then gFastN o m s (stepsNow o m s) n a 0
         else gN o m s n a
+
+/-- `sinusoid(freq, phase)` as it is written today: `sin` of `modulo_counter(phase, 2 * pi, freq)`; the sine and the
+    value of `2 * pi` are parameters -/
+def sinusoidNow {β : Type} (sin : α → β) (twoPi : α) (freq phase : Arg α) (n : Nat) : Run β :=
+  mapOut sin (mcNow o phase (.num twoPi) freq n)
 
 /-- `attack` as it is written today: `attackG`, but an empty sustain iterable gives the empty
     envelope (D23 repaired: `except StopIteration: return`) -/
